@@ -675,7 +675,7 @@ pub fn drive_automata(a: &Args) {
         if id % 40 == 0 {
             mgr = ReManager::new();
         }
-        if id % a.sz(4, 1) != 0 {
+        if id % a.sz(2, 1) != 0 {
             continue;
         }
         let r = guarded(|| {
